@@ -15,8 +15,8 @@
     - H5Dread/H5Dwrite fail (H5Error) when the numbers of selected elements in memory and file
       space differ or a non-empty selection leaves the extent; a hyperslab with a zero count
       selects nothing (then neither bounds nor offsets matter);
-    - H5Sselect_hyperslab reads exactly [rank] entries of the start/count arrays: shorter NDSize
-      vectors are read past their end (UB); longer ones are tolerated;
+    - H5Sselect_hyperslab uses the first [rank] entries of the start/count arrays: longer NDSize
+      vectors are tolerated (shorter ones are rejected by the code's own rank guard);
     - H5Screate_simple fails for more than 32 dimensions and for a dimension 2^64-1 (H5S_UNLIMITED);
     - hard conversions of this build (x86-64, gcc 12): integer->integer clamps; integer->float
       rounds to nearest even; float->integer truncates and clamps, except that a value equal to
@@ -27,14 +27,11 @@
       NaN->integer is the C cast of a NaN (undefined in C, hardware dependent): [UB], excluded
       from the compared domain;  Bool is an 8-bit enum: it converts to every numeric type,
       nothing converts to it; String converts to and from nothing else;
-    - a file opened read-only rejects every mutating call (H5Error; creating an object: H5Exception)
-      - with one observed exception that the model mirrors: H5Awrite on an *existing* attribute
-      throws, but the new value stays visible to that session until the file is closed ([ro_origin]);
+    - a file opened read-only rejects every mutating call (H5Error; creating an object: H5Exception);
     - compression (none / deflate / inherited from the file) has no effect on values.
-    Defects of the code path that the model mirrors as [UB] (never a legal outcome):
-    count / offset shorter than the rank (above); a calibrated read requested as String
-    (DataArray::ioRead reads doubles into the caller's std::string objects before the conversion
-    is refused); both are kept out of the default case stream (opt-in probes).
+    The slab selection has no undefined behaviour ([slab_never_ub]); the only [UB] outcomes left in
+    the model are preconditions of the raw-pointer API (caller's buffer smaller than count.nelms()),
+    the C cast of NaN inside H5Tconvert, and the domain marker for the extent value 2^64-1.
     Not modelled: extents or offsets >= 2^63 in HDF5's own bound arithmetic (the generator stays
     far below), NDSize::nelms wrap-around, the extent value 2^64-1 (= H5S_UNLIMITED; observed to
     leave the dataset unusable: [UB "domain"] here). *)
@@ -269,23 +266,23 @@ Definition set_extent (ro : bool) (a : arr) (sh : list Z) : res arr :=
   else if existsb (fun s => u64max <=? s) sh then UB "domain: extent 2^64-1 is H5S_UNLIMITED"%string
   else Ok (with_data a sh (tab sh (fun i => if in_box (a_shape a) i then get a i else zero a))).
 
-(** DataSet::offsetCount2DataSpaces: the memory space is [count] (scalar if empty); the file
-    selection is  offset && count -> hyperslab(count, offset);  offset && !count -> hyperslab of
-    ones;  otherwise the whole extent.  Result: file offset and file count, both of the rank. *)
+(** DataSet::offsetCount2DataSpaces: first the rank guard (a non-empty offset, or a count given
+    together with one, with fewer entries than the data has dimensions: InvalidRank - H5Sselect_hyperslab
+    would read [rank] entries from both arrays); then the memory space is [count] (scalar if empty);
+    the file selection is  offset && count -> hyperslab(count, offset);  offset && !count ->
+    hyperslab of ones;  otherwise the whole extent.  Longer vectors are tolerated (first [rank]
+    entries).  Result: file offset and file count, both of the rank. *)
 Definition slab_sel (sh off cnt : list Z) : res (list Z * list Z) :=
   let rank := List.length sh in
-  if (32 <? List.length cnt)%nat || existsb (fun c => u64max <=? c) cnt
+  if negb (Nat.eqb (List.length off) 0) &&
+     ((List.length off <? rank)%nat || (negb (Nat.eqb (List.length cnt) 0) && (List.length cnt <? rank)%nat))
+  then Err "nix::InvalidRank"%string
+  else if (32 <? List.length cnt)%nat || existsb (fun c => u64max <=? c) cnt
   then Err h5exception                                        (* DataSpace::create(count) fails *)
   else match off, cnt with
        | [], _ => Ok (repeat 0 rank, sh)
-       | _ :: _, [] =>
-           if (List.length off <? rank)%nat
-           then UB "H5Sselect_hyperslab reads past the end of an offset shorter than the rank"%string
-           else Ok (firstn rank off, repeat 1 rank)
-       | _ :: _, _ :: _ =>
-           if (List.length off <? rank)%nat || (List.length cnt <? rank)%nat
-           then UB "H5Sselect_hyperslab reads past the end of a count/offset shorter than the rank"%string
-           else Ok (firstn rank off, firstn rank cnt)
+       | _ :: _, [] => Ok (firstn rank off, repeat 1 rank)
+       | _ :: _, _ :: _ => Ok (firstn rank off, firstn rank cnt)
        end.
 
 (** H5Dread / H5Dwrite accept the transfer: as many elements in memory as selected in the file,
@@ -331,12 +328,11 @@ Definition as_f64 (v : V) : F64 := match v with VD d => d | _ => f64_zero end.
     read as double, transformed, then converted in place to the requested type *)
 Definition io_read (a : arr) (dst : dtype) (off cnt : list Z) : res (list V) :=
   if calibrated a then
+    (* the caller's buffer would hold std::string objects: refused before anything is read *)
+    if dtype_eqb dst TString then Err h5error
+    else
     bind (read_direct a TDouble off cnt) (fun ds =>
-      (* sizeof(std::string) >= sizeof(double): the doubles are read straight into the caller's
-         std::string objects before the conversion to String is refused *)
-      if dtype_eqb dst TString && negb (Nat.eqb (List.length ds) 0)
-      then UB "calibrated read as String: doubles are written over the caller's std::string objects"%string
-      else if negb (conv_ok TDouble dst) then Err h5error
+      if negb (conv_ok TDouble dst) then Err h5error
       else mapM (fun v => conv_val TDouble dst (VD (apply_poly (poly_coeffs a) (origin_or_zero a) (as_f64 v)))) ds)
   else read_direct a dst off cnt.
 
@@ -388,9 +384,7 @@ Definition read_vector (a : arr) : res (list V) :=
 Inductive mode := RW | RO.
 Definition is_ro (m : mode) : bool := match m with RO => true | RW => false end.
 
-(** [ro_origin]: in a read-only session, H5Awrite on the existing attribute "expansion_origin" throws
-    but the new value stays visible to that session (not on disk) until the file is closed. *)
-Record st := mkSt { disk : arr; sess : option mode; ro_origin : option F64 }.
+Record st := mkSt { disk : arr; sess : option mode }.
 
 Inductive op :=
 | OWrite (off cnt : list Z) (vals : list V)
@@ -421,20 +415,16 @@ Definition closed_err : string := "nix::UninitializedEntity"%string.
 
 Definition unit_res (r : res unit) : res obs := bind r (fun _ => Ok ObsUnit).
 
-(** what the session sees *)
-Definition view (s : st) : arr :=
-  match ro_origin s with
-  | Some x => with_origin (disk s) (Some x)
-  | None => disk s
-  end.
+(** what the session sees is what is stored *)
+Definition view (s : st) : arr := disk s.
 
-Definition on_disk (s : st) (a : arr) : st := mkSt a (sess s) (ro_origin s).
+Definition on_disk (s : st) (a : arr) : st := mkSt a (sess s).
 
 (** one API call: new state and the call's outcome *)
 Definition step (s : st) (o : op) : st * res obs :=
   match o, sess s with
-  | OClose, _ => (mkSt (disk s) None None, Ok ObsUnit)
-  | OOpen m, _ => (mkSt (disk s) (Some m) None, Ok ObsUnit)
+  | OClose, _ => (mkSt (disk s) None, Ok ObsUnit)
+  | OOpen m, _ => (mkSt (disk s) (Some m), Ok ObsUnit)
   | _, None => (s, Err closed_err)
   | OWrite off cnt vals, Some m =>
       match write_slab (is_ro m) (disk s) off cnt vals with
@@ -475,10 +465,9 @@ Definition step (s : st) (o : op) : st * res obs :=
       if is_ro m then (s, Err h5error)          (* forceUpdatedAt fails even if there is nothing to remove *)
       else (on_disk s (with_poly (disk s) None), Ok ObsUnit)
   | OOrigin (Some x), Some m =>
-      if is_ro m then
-        if opt_is_some (a_origin (view s))
-        then (mkSt (disk s) (sess s) (Some x), Err h5error)     (* thrown, yet visible to this session *)
-        else (s, Err h5exception)
+      (* read-only: an existing attribute is refused by LocID::checkWritable (H5Error), creating one
+         fails (H5Exception) *)
+      if is_ro m then (s, Err (if opt_is_some (a_origin (disk s)) then h5error else h5exception))
       else (on_disk s (with_origin (disk s) (Some x)), Ok ObsUnit)
   | OOrigin None, Some m =>
       if is_ro m then (s, Err h5error)
@@ -492,4 +481,4 @@ Fixpoint run (s : st) (ops : list op) : st * list (res obs) :=
   | o :: r => let (s1, x) := step s o in let (s2, xs) := run s1 r in (s2, x :: xs)
   end.
 
-Definition start (t : dtype) (c : compression) (sh : list Z) : st := mkSt (create t c sh) (Some RW) None.
+Definition start (t : dtype) (c : compression) (sh : list Z) : st := mkSt (create t c sh) (Some RW).
